@@ -15,6 +15,7 @@ import (
 	"time"
 
 	"github.com/siderolabs/gen/optional"
+	"github.com/siderolabs/gen/xerrors"
 	"go.uber.org/zap"
 
 	"github.com/cosi-project/runtime/pkg/controller"
@@ -47,6 +48,9 @@ type Opts struct {
 	MaxDelay     int
 	Cached       bool
 	FailFirst    int // the first n transform invocations of each controller fail
+	// PostponeRemoval: the FinalizerRemovalFunc of T ("finalizers") and QT postpones the removal (T: error tagged SkipReconcileTag, the
+	// documented way; QT: plain error, retried with back-off) until the harness lifts the hold after the first quiescent point
+	PostponeRemoval bool
 	Steps        int
 	Actors       int
 }
@@ -62,6 +66,8 @@ type Outcome struct {
 	DestroyErrs []string
 	RunErr  string
 	Transforms int64
+	// HoldLiftedAt is the log length when the postponement of finalizer removals was lifted (PostponeRemoval scenarios)
+	HoldLiftedAt int
 	RegErrs []string
 }
 
@@ -147,6 +153,10 @@ func Run(rng *rand.Rand, o Opts) *Outcome {
 		}
 	}
 
+	var hold atomic.Bool
+
+	hold.Store(o.PostponeRemoval)
+
 	reg := func(err error) {
 		if err != nil {
 			out.RegErrs = append(out.RegErrs, err.Error())
@@ -166,7 +176,13 @@ func Run(rng *rand.Rand, o Opts) *Outcome {
 		switch o.T {
 		case "finalizers":
 			topts = append(topts, transform.WithInputFinalizers())
-			settings.FinalizerRemovalFunc = func(context.Context, controller.Reader, *zap.Logger, *res.A) error { return nil }
+			settings.FinalizerRemovalFunc = func(context.Context, controller.Reader, *zap.Logger, *res.A) error {
+				if hold.Load() {
+					return xerrors.NewTaggedf[transform.SkipReconcileTag]("verif: finalizer removal postponed")
+				}
+
+				return nil
+			}
 		case "ignoretd":
 			topts = append(topts, transform.WithIgnoreTearingDownInputs())
 		}
@@ -182,8 +198,21 @@ func Run(rng *rand.Rand, o Opts) *Outcome {
 			qopts = append(qopts, qtransform.WithIgnoreTeardownWhile("extin"))
 		}
 
+		var qtRemoval func(context.Context, controller.Reader, *zap.Logger, *res.A) error
+
+		if o.PostponeRemoval {
+			qtRemoval = func(context.Context, controller.Reader, *zap.Logger, *res.A) error {
+				if hold.Load() {
+					return errors.New("verif: finalizer removal postponed")
+				}
+
+				return nil
+			}
+		}
+
 		reg(rt.RegisterQController(qtransform.NewQController(qtransform.Settings[*res.A, *res.C]{
-			Name:              "QT",
+			Name:                 "QT",
+			FinalizerRemovalFunc: qtRemoval,
 			MapMetadataFunc:   func(in *res.A) *res.C { return res.NewC(NS, in.Metadata().ID()) },
 			UnmapMetadataFunc: func(c *res.C) *res.A { return res.NewA(NS, c.Metadata().ID()) },
 			TransformFunc: func(ctx context.Context, r controller.Reader, l *zap.Logger, in *res.A, c *res.C) error {
@@ -361,6 +390,23 @@ func Run(rng *rand.Rand, o Opts) *Outcome {
 		for _, f := range v.Fins {
 			if f == "ext" || f == "extin" {
 				_ = st.RemoveFinalizer(actx, ptr(k.Type, k.ID), f)
+			}
+		}
+	}
+
+	if o.PostponeRemoval {
+		// lift the hold; a postponed (skipped) reconcile is only repeated on the next input event, so touch every torn-down input
+		hold.Store(false)
+
+		out.HoldLiftedAt = px.Len()
+
+		for k, v := range px.ShadowAll() {
+			if k.Type == res.TypeA && v.TearingDown() {
+				_, _ = st.UpdateWithConflicts(actx, ptr(k.Type, k.ID), func(r resource.Resource) error {
+					r.Metadata().Labels().Set("poke", "1")
+
+					return nil
+				}, state.WithExpectedPhaseAny())
 			}
 		}
 	}
